@@ -106,6 +106,39 @@ func (h *H) variants(m *ledger.Model, txns coin.Transactions, when uint64) (vali
 		}
 		return true
 	}, true)
+	// the same with three or more outputs, the 64-bit wrap happening before the last addition
+	mut("coins-wrap-early", func(t *coin.Transaction) bool {
+		var c uint64
+		for _, ux := range in0 {
+			c += ux.Body.Coins
+		}
+		if c < 4 || c >= 1<<62 {
+			return false
+		}
+		// a + b = 2^64 exactly (wraps to 0), then the remaining outputs sum to c
+		a := uint64(1) + uint64(h.Rng.Int63())
+		b := ^uint64(0) - a + 1
+		rest := h.splitCoins(c, 1+h.Rng.Intn(3), 1)
+		outs := []coin.TransactionOutput{{Address: h.randAddr(), Coins: a}, {Address: h.randAddr(), Coins: b}}
+		if h.Rng.Intn(2) == 0 {
+			// or: wrap in the middle, a + r0 first
+			outs = []coin.TransactionOutput{{Address: h.randAddr(), Coins: a}}
+			outs = append(outs, coin.TransactionOutput{Address: h.randAddr(), Coins: rest[0]})
+			outs = append(outs, coin.TransactionOutput{Address: h.randAddr(), Coins: b})
+			rest = rest[1:]
+		}
+		for i, r := range rest {
+			outs = append(outs, coin.TransactionOutput{Address: h.Chain.Keys[i%len(h.Chain.Keys)].Addr, Coins: r, Hours: uint64(i)})
+		}
+		// distinct receivers, so that the wrap is the only fault
+		off := h.Rng.Intn(len(h.Chain.Keys))
+		for i := range outs {
+			outs[i].Address = h.Chain.Keys[(off+i)%len(h.Chain.Keys)].Addr
+			outs[i].Hours = 0
+		}
+		t.Out = outs
+		return true
+	}, true)
 	mut("zero-coin", func(t *coin.Transaction) bool {
 		t.Out = append(t.Out, coin.TransactionOutput{Address: h.randAddr(), Coins: 0, Hours: 0})
 		return true
